@@ -277,7 +277,13 @@ def main(tier: str) -> int:
         for e in errs:
             run.violation({"mode": "two-parsers-threads-baton", "clause": "raised"}, e, {"pair": [a, b]})
         check(res, specs, {"mode": "two-parsers-threads-baton"}, {"pair": [a, b]})
-    # free-running threads
+    # free-running threads: the long TRIPLES workloads against each other (and against themselves), many times -- module-level scratch objects in the
+    # serializer show only under true concurrency
+    for a, b in (("E", "E"), ("E", "A"), ("E", "D"), ("F", "F")):
+        specs = {"A": (a, "ser"), "B": (b, "ser"), "C": (a, "ser")}
+        for res in run_threads_free(specs, 40 if tier == "quick" else 400):
+            runs += 1
+            check(res, specs, {"mode": "threads-free-running"}, {"pair": [a, b]})
     for a, b in pairs[:3]:
         specs = {"A": (a, "ser"), "B": (b, "ser"), "P": (a, "par", base[a], solo.workloads()[a][0])}
         for res in run_threads_free(specs, 30 if tier == "quick" else 300):
